@@ -50,7 +50,13 @@ class _Walk:
         ka, kb = _leaves(self.fn, a), _leaves(self.fn, b)
         flip = ka > kb
         key = 'cmp:%s || %s' % ((kb, ka) if flip else (ka, kb))
-        o = self.atom(key, ('lt', 'eq', 'gt'))
+        dom = ('lt', 'eq', 'gt')
+        # unsigned x against 0 cannot be below it: two outcomes (in the canonical operand order)
+        if core.is_unsigned_zero(b):
+            dom = ('eq', 'lt') if flip else ('eq', 'gt')
+        elif core.is_unsigned_zero(a):
+            dom = ('eq', 'gt') if flip else ('eq', 'lt')
+        o = self.atom(key, dom)
         if flip:
             o = _FLIP[o]
         if ka == kb and op not in ('Eq', 'Ne'):
